@@ -78,6 +78,9 @@ structure Section where
 structure Handout where
   kind : HandKind
   field : Nat
+  /-- not returned to the caller, but used by the method itself after it released the lock (the alias was
+  obtained inside the critical section and escapes it) -/
+  escape : Bool := false
   line : Nat
   deriving Repr, Inhabited
 
